@@ -88,6 +88,14 @@ func IsKnown(sig string) bool {
 	return knownSet()[sig]
 }
 
+// KnownHit records, from inside a run, that a listed known finding was hit and excluded
+// (the run goes on behind it).
+func KnownHit(test, sig string) {
+	mu.Lock()
+	defer mu.Unlock()
+	get(test).KnownHits[sig]++
+}
+
 // Count adds to a free-form counter of the test (reported under coverage.extra).
 func Count(test, key string, n int) {
 	mu.Lock()
